@@ -633,7 +633,8 @@ def check_mirror(prog: Program, res: Result) -> None:
              "(1<->2, mapping<->inverted_mapping, u<->v)")
     for fname in ("_update_state", "_revert_state", "_graph_feasibility",
                   "_sanity_check_and_init"):
-        fi0 = prog.fn(f"{MOD}:{fname}")
+        fi0 = canon_iso(prog, fname) if fname in PROTOCOL_PARAMS else \
+            prog.fn(f"{MOD}:{fname}")
         from .core import unroll_literal_loops
         fi = FuncInfo(fi0.qual, fi0.module, unroll_literal_loops(fi0.node),
                       fi0.cls)
@@ -833,12 +834,19 @@ def canon_search_function(prog: Program, fi: FuncInfo) -> FuncInfo:
     from .core import clone, set_parents
     fn = clone(fi.node)
     fields = record_fields(prog)["_State"]
+    # the state record: third argument of the state update calls
+    state_names = {norm(c.args[2]) for c in ast.walk(fn)
+                   if isinstance(c, ast.Call) and call_name(c) in (
+                       "_update_state", "_revert_state", "update_state",
+                       "revert_state") and len(c.args) >= 3
+                   and isinstance(c.args[2], ast.Name)}
+    state_name = state_names.pop() if len(state_names) == 1 else "state"
 
     class T(ast.NodeTransformer):
         def visit_Attribute(self, node):
             self.generic_visit(node)
-            if isinstance(node.value, ast.Name) and node.value.id == "state" \
-                    and node.attr in fields:
+            if isinstance(node.value, ast.Name) and \
+                    node.value.id == state_name and node.attr in fields:
                 return ast.copy_location(ast.Name(node.attr, node.ctx), node)
             return node
 
@@ -860,6 +868,32 @@ def canon_search_function(prog: Program, fi: FuncInfo) -> FuncInfo:
         return out
 
     fn.body = strip(fn.body)
+    # plain aliases `m = mapping` (bound once) are read as the field itself
+    stores: dict[str, int] = {}
+    for n in ast.walk(fn):
+        if isinstance(n, ast.Name) and isinstance(n.ctx, ast.Store):
+            stores[n.id] = stores.get(n.id, 0) + 1
+    table = {}
+    for n in ast.walk(fn):
+        if isinstance(n, ast.Assign) and len(n.targets) == 1 and isinstance(
+                n.targets[0], ast.Name) and isinstance(n.value, ast.Name) and \
+                n.value.id in fields and stores.get(n.targets[0].id) == 1 and \
+                n.targets[0].id not in fields:
+            table[n.targets[0].id] = n.value.id
+    # the combined predicate and the stack under their role names
+    for n in ast.walk(fn):
+        if isinstance(n, ast.Assign) and len(n.targets) == 1 and isinstance(
+                n.targets[0], ast.Name) and isinstance(
+                n.value, ast.Call) and call_name(n.value) == "_wrap_all" and \
+                stores.get(n.targets[0].id) == 1:
+            table[n.targets[0].id] = "feasibility"
+        if isinstance(n, ast.While) and isinstance(n.test, ast.Name) and \
+                stores.get(n.test.id, 0) <= 1:
+            table[n.test.id] = "stack"
+    for n in ast.walk(fn):
+        if isinstance(n, ast.Name) and n.id in table:
+            n.id = table[n.id]
+    fn.body = strip(fn.body)
     ast.fix_missing_locations(fn)
     set_parents(fn)
     return FuncInfo(fi.qual, fi.module, fn, fi.cls)
@@ -878,10 +912,11 @@ def check_main_loop(prog: Program, res: Result) -> None:
              "search state, never the live dictionary")
     fi0 = prog.fn(f"{MOD}:vf2pp_all_isomorphisms")
     # `mapping` / `inverted_mapping` may only be the record's dictionaries
+    fi = canon_search_function(prog, fi0)
     for nm in ("mapping", "inverted_mapping"):
-        defs = [n for n in ast.walk(fi0.node) if isinstance(n, ast.Assign)
+        defs = [n for n in ast.walk(fi.node) if isinstance(n, ast.Assign)
                 and any(norm(t) == nm for t in n.targets)]
-        odd = [d for d in defs if norm(d.value) != f"state.{nm}"]
+        odd = [d for d in defs if norm(d.value) != nm]
         inst = f"{fi0.short}: {nm} aliases state.{nm}"
         if odd:
             res.bad("R-PAIRED-STATE", f"{fi0.short}: alias {nm}",
@@ -1038,7 +1073,7 @@ def check_candidates(prog: Program, res: Result) -> None:
              "class of u, minus the atoms already used; label / degree / "
              "neighbour sets are only intersected, used atoms only "
              "subtracted")
-    fi = prog.fn(f"{MOD}:_find_candidates")
+    fi = canon_iso(prog, "_find_candidates")
     rets = [n for n in ast.walk(fi.node) if isinstance(n, ast.Return)]
     if len(rets) < 1:
         raise AnalysisError("_find_candidates: no return")
@@ -1114,8 +1149,7 @@ def check_candidates(prog: Program, res: Result) -> None:
                 res.ok("R-CAND-SOUND", inst, fi.loc(c))
     # structure of the branches: evaluated per syntactic path on the canonical
     # form (record fields under their own names, however they were read)
-    cfi = canon_records(prog, fi, fields)
-    _check_candidate_paths(res, cfi)
+    _check_candidate_paths(res, fi)
 
 
 def canon_records(prog: Program, fi: FuncInfo,
@@ -1315,6 +1349,105 @@ def canon_predicate(prog: Program, fi: FuncInfo,
     c = canon_records(prog, fi, fields)
     explicit_bool_returns(c.node)
     return c
+
+
+def rename_locals(fi: FuncInfo, table: dict[str, str]) -> FuncInfo:
+    """Clone of fi with local names replaced (role based canonical names, so
+    that the text patterns of a rule do not depend on what a maintainer
+    called a variable)."""
+    from .core import clone, set_parents
+    table = {k: v for k, v in table.items() if k and k != v}
+    if not table:
+        return fi
+    fn = clone(fi.node)
+    for n in ast.walk(fn):
+        if isinstance(n, ast.Name) and n.id in table:
+            n.id = table[n.id]
+        elif isinstance(n, ast.arg) and n.arg in table:
+            n.arg = table[n.arg]
+    set_parents(fn)
+    return FuncInfo(fi.qual, fi.module, fn, fi.cls)
+
+
+PROTOCOL_PARAMS = {
+    "_update_state": ("new_atom1", "new_atom2", "state", "params"),
+    "_revert_state": ("last_atom1", "last_atom2", "state", "params"),
+    "_graph_feasibility": ("u", "v", "state", "params"),
+    "_stereo_feasibility": ("u", "v", "state", "params"),
+    "_stereo_change_feasibility": ("u", "v", "state", "params"),
+    "_bond_change_feasibility": ("u", "v", "state", "params"),
+    "_find_candidates": ("u", "state", "params"),
+}
+
+
+def canon_iso(prog: Program, fname: str, predicate: bool = False) -> FuncInfo:
+    """The VF2++ helper `fname` with its parameters under the protocol names
+    and every read of the state / parameter records under the field name."""
+    fi = prog.fn(f"{MOD}:{fname}")
+    want = PROTOCOL_PARAMS.get(fname)
+    if want and len(fi.params()) == len(want):
+        used = {n.id for n in ast.walk(fi.node) if isinstance(n, ast.Name)}
+        table = {p: w for p, w in zip(fi.params(), want)
+                 if p != w and w not in used}
+        fi = rename_locals(fi, table)
+    fi = canon_records(prog, fi)
+    if predicate:
+        explicit_bool_returns(fi.node)
+    return fi
+
+
+def find_locals(fi: FuncInfo, pred) -> list[str]:
+    """Locals with an assignment whose value satisfies pred(value node)."""
+    out = []
+    for n in ast.walk(fi.node):
+        tgt = val = None
+        if isinstance(n, ast.Assign) and len(n.targets) == 1 and isinstance(
+                n.targets[0], ast.Name):
+            tgt, val = n.targets[0].id, n.value
+        elif isinstance(n, ast.AnnAssign) and isinstance(
+                n.target, ast.Name) and n.value is not None:
+            tgt, val = n.target.id, n.value
+        if tgt and pred(val) and tgt not in out:
+            out.append(tgt)
+    return out
+
+
+def _iterates_over(value: ast.AST, pattern: str) -> bool:
+    """value is a comprehension whose first generator iterates over an
+    expression matching the regular expression (on normalised text)."""
+    if isinstance(value, (ast.ListComp, ast.SetComp, ast.GeneratorExp,
+                          ast.DictComp)):
+        return re.fullmatch(pattern, norm(value.generators[0].iter, 200)) \
+            is not None
+    if isinstance(value, ast.Call) and call_name(value) in (
+            "list", "set", "tuple", "frozenset", "sorted") and value.args:
+        return _iterates_over(value.args[0], pattern)
+    return False
+
+
+def canon_comp_vars(fi: FuncInfo) -> FuncInfo:
+    """Comprehension variables renamed by position (c0, c1, ...) per
+    comprehension, so `for s in xs` and `for d in xs` read the same."""
+    from .core import clone, set_parents
+    fn = clone(fi.node)
+    for comp in ast.walk(fn):
+        if not isinstance(comp, (ast.ListComp, ast.SetComp, ast.GeneratorExp,
+                                 ast.DictComp)):
+            continue
+        names = []
+        for g in comp.generators:
+            for n in ast.walk(g.target):
+                if isinstance(n, ast.Name) and n.id not in names:
+                    names.append(n.id)
+        table = {n: f"c{i}" for i, n in enumerate(names)
+                 if not re.fullmatch(r"c\d", n)}
+        if not table:
+            continue
+        for n in ast.walk(comp):
+            if isinstance(n, ast.Name) and n.id in table:
+                n.id = table[n.id]
+    set_parents(fn)
+    return FuncInfo(fi.qual, fi.module, fn, fi.cls)
 
 
 def _alpha(e: ast.AST) -> str:
@@ -1579,7 +1712,7 @@ def check_feasibility(prog: Program, res: Result) -> None:
              "sets; both are registered for exactly the flags stereo / "
              "stereo_change and combined with all()")
     for fname in ("_stereo_feasibility", "_stereo_change_feasibility"):
-        fi = canon_predicate(prog, prog.fn(f"{MOD}:{fname}"))
+        fi = canon_iso(prog, fname, predicate=True)
         # membership filters over stereo.atoms
         n_f = 0
         for node in ast.walk(fi.node):
@@ -1622,9 +1755,16 @@ def check_feasibility(prog: Program, res: Result) -> None:
             res.error(f"R-NULL-FEAS {fname}: only {n_f} descriptor-atom "
                       "comprehensions recognised")
     # comparison shape --------------------------------------------------------
-    fi = canon_predicate(prog, prog.fn(f"{MOD}:_stereo_feasibility"))
-    txt = utext(fi.node)
+    fi = canon_iso(prog, "_stereo_feasibility", predicate=True)
     u, v = fi.params()[:2]
+    a_ = find_locals(fi, lambda val: _iterates_over(
+        val, rf"g1_stereo(\[{u}\]|\.get\({u}.*\))"))
+    b_ = find_locals(fi, lambda val: _iterates_over(
+        val, rf"g2_stereo(\[{v}\]|\.get\({v}.*\))"))
+    if len(a_) == 1 and len(b_) == 1:
+        fi = rename_locals(fi, {a_[0]: "s1", b_[0]: "s2"})
+    fi = canon_comp_vars(fi)
+    txt = utext(fi.node)
     def req(cond, key, msg, f=fi):
         inst = f"{f.short}: {key}"
         if cond:
@@ -1639,7 +1779,7 @@ def check_feasibility(prog: Program, res: Result) -> None:
     req("len(s2) != len(s1)" in txt or "len(s1) != len(s2)" in txt,
         "same number of complete descriptors",
         "the counts of complete descriptors on the two sides are not compared")
-    req(bool(re.search(r"all\(\(?s in s2 for s in s1\)?\)", txt)),
+    req(bool(re.search(r"all\(\(?c0 in s2 for c0 in s1\)?\)", txt)),
         "every mapped descriptor of u is among v's",
         "`all(s in s2 for s in s1)` not found")
     rets_true = [n for n in ast.walk(fi.node) if isinstance(n, ast.Return)
@@ -1647,9 +1787,16 @@ def check_feasibility(prog: Program, res: Result) -> None:
     req(all(any(isinstance(a, ast.If) for a in ancestors(r)) for r in rets_true)
         and bool(rets_true), "True only under the comparison",
         "returns True unconditionally")
-    fi2 = canon_predicate(prog, prog.fn(f"{MOD}:_stereo_change_feasibility"))
-    txt2 = utext(fi2.node)
+    fi2 = canon_iso(prog, "_stereo_change_feasibility", predicate=True)
     u2, v2 = fi2.params()[:2]
+    a_ = find_locals(fi2, lambda val: _iterates_over(
+        val, rf"g1_stereo_changes(\[{u2}\]|\.get\({u2}.*\))\.items\(\)"))
+    b_ = find_locals(fi2, lambda val: _iterates_over(
+        val, rf"g2_stereo_changes(\[{v2}\]|\.get\({v2}.*\))\.items\(\)"))
+    if len(a_) == 1 and len(b_) == 1:
+        fi2 = rename_locals(fi2, {a_[0]: "s1", b_[0]: "s2"})
+    fi2 = canon_comp_vars(fi2)
+    txt2 = utext(fi2.node)
     req(re.search(rf"g1_stereo_changes(\[|\.get\(){u2}\b", txt2) is not None
         and re.search(rf"g2_stereo_changes(\[|\.get\(){v2}\b", txt2)
         is not None,
@@ -1658,15 +1805,25 @@ def check_feasibility(prog: Program, res: Result) -> None:
         "params.g2_stereo_changes[v]", fi2)
     req("s1 == s2" in txt2 or "s2 == s1" in txt2, "role-tagged sets equal",
         "the (role, descriptor) sets are not compared for equality", fi2)
-    req(txt2.count("stereo_change,") >= 2 or txt2.count("(stereo_change") >= 2,
+    req(txt2.count("(c0, ") >= 2,
         "role is part of the compared element",
         "the change role is not part of the compared elements", fi2)
     # registration -------------------------------------------------------------
     main = prog.fn(f"{MOD}:vf2pp_all_isomorphisms")
     reg = {}
+    # the list the predicates are registered in: the one that receives
+    # `.append(<feasibility function>)`
+    lists = {}
+    for node in ast.walk(main.node):
+        if isinstance(node, ast.Call) and isinstance(
+                node.func, ast.Attribute) and node.func.attr == "append" and \
+                isinstance(node.func.value, ast.Name) and node.args and \
+                re.fullmatch(r"_\w*feasibility", norm(node.args[0])):
+            lists[node.func.value.id] = lists.get(node.func.value.id, 0) + 1
+    reg_list = max(lists, key=lists.get) if lists else "feasibility_funcs"
     for node in ast.walk(main.node):
         if isinstance(node, ast.Call) and call_name(node) == \
-                "feasibility_funcs.append" and node.args:
+                f"{reg_list}.append" and node.args:
             conds = []
             prev = node
             for a in ancestors(node):
@@ -1702,23 +1859,72 @@ def check_feasibility(prog: Program, res: Result) -> None:
                     f"full-graph branch with {sorted(extra) or 'no flag'}",
                     instance=inst)
     wrap = prog.fn(f"{MOD}:_wrap_all")
-    wt = utext(wrap.node)
     inst = "_wrap_all combines the predicates with all()"
-    if re.search(r"return all\(\(?f\(a, b, state, params\) for f in funcs\)?\)", wt):
+    verdict = _wrap_all_shape(wrap)
+    if verdict is True:
         res.ok("R-STEREO-FEAS", inst, wrap.loc())
+    elif verdict is None:
+        res.unrecognised("R-STEREO-FEAS", inst, wrap.loc(),
+                         "shape of _wrap_all (closure returning all(f(a, b, "
+                         "state, params) for f in funcs))")
     else:
         res.bad("R-STEREO-FEAS", inst, wrap.loc(),
-                "_wrap_all does not return all(f(a, b, state, params) for f "
-                "in funcs)", instance=inst)
+                f"_wrap_all does not return all(f(a, b, state, params) for f "
+                f"in funcs): {verdict}", instance=inst)
     asg = [n for n in ast.walk(main.node) if isinstance(n, ast.Assign)
-           and norm(n.targets[0]) == "feasibility"]
+           and isinstance(n.value, ast.Call)
+           and call_name(n.value) == "_wrap_all"]
     inst = "feasibility = _wrap_all(*feasibility_funcs)"
-    if len(asg) == 1 and norm(asg[0].value) == "_wrap_all(*feasibility_funcs)":
+    if len(asg) == 1 and len(asg[0].value.args) == 1 and isinstance(
+            asg[0].value.args[0], ast.Starred) and norm(
+            asg[0].value.args[0].value) == reg_list:
         res.ok("R-STEREO-FEAS", inst, main.loc(asg[0]))
+    elif len(asg) == 1:
+        res.bad("R-STEREO-FEAS", inst, main.loc(asg[0]),
+                f"`{norm(asg[0], 80)}` does not combine the list "
+                f"`{reg_list}` the predicates are registered in",
+                instance=inst)
     else:
-        res.bad("R-STEREO-FEAS", inst, main.loc(),
-                "the registered predicates are not combined through "
-                "_wrap_all(*feasibility_funcs)", instance=inst)
+        res.unrecognised("R-STEREO-FEAS", inst, main.loc(),
+                         f"{len(asg)} assignments from _wrap_all(...)")
+
+
+def _wrap_all_shape(wrap: FuncInfo):
+    """True | None (not recognised) | text of the deviation."""
+    a = wrap.node.args
+    if a.vararg is None:
+        return None
+    funcs = a.vararg.arg
+    inner = [n for n in wrap.node.body if isinstance(n, ast.FunctionDef)]
+    if len(inner) != 1:
+        return None
+    w = inner[0]
+    params = [x.arg for x in w.args.posonlyargs + w.args.args]
+    rets = [n for n in ast.walk(w) if isinstance(n, ast.Return)]
+    outer_rets = [n for n in wrap.node.body if isinstance(n, ast.Return)]
+    if len(rets) != 1 or len(outer_rets) != 1 or norm(
+            outer_rets[0].value) != w.name:
+        return None
+    v = rets[0].value
+    if not (isinstance(v, ast.Call) and isinstance(v.func, ast.Name)
+            and len(v.args) == 1 and isinstance(
+            v.args[0], (ast.GeneratorExp, ast.ListComp))):
+        return None
+    g = v.args[0]
+    if len(g.generators) != 1 or g.generators[0].ifs or not isinstance(
+            g.generators[0].target, ast.Name):
+        return None
+    f = g.generators[0].target.id
+    if v.func.id != "all":
+        return f"the predicates are combined with {v.func.id}()"
+    if norm(g.generators[0].iter) != funcs:
+        return f"iterates over `{norm(g.generators[0].iter)}`, not `{funcs}`"
+    if not (isinstance(g.elt, ast.Call) and norm(g.elt.func) == f
+            and [norm(x) for x in g.elt.args] == params
+            and not g.elt.keywords):
+        return (f"each predicate is called as `{norm(g.elt, 60)}`, not with "
+                f"({', '.join(params)})")
+    return True
 
 
 def _contains(tree: ast.AST, node: ast.AST) -> bool:
@@ -1840,7 +2046,7 @@ def check_both_sides(prog: Program, res: Result) -> None:
     for fname, (t1, t2) in table.items():
         if not prog.has_fn(f"{MOD}:{fname}"):
             continue
-        fi = canon_predicate(prog, prog.fn(f"{MOD}:{fname}"))
+        fi = canon_iso(prog, fname, predicate=True)
         du = DefUse(fi.node)
         rets = [r for r in ast.walk(fi.node) if isinstance(r, ast.Return)]
         last_stmt = fi.node.body[-1]
@@ -1894,7 +2100,7 @@ def check_revert(prog: Program, res: Result) -> None:
              "stays in the frontier iff it has a covered neighbour, otherwise "
              "it becomes external")
     from .core import unroll_literal_loops
-    fi0 = prog.fn(f"{MOD}:_revert_state")
+    fi0 = canon_iso(prog, "_revert_state")
     fn = unroll_literal_loops(fi0.node)
     fi = FuncInfo(fi0.qual, fi0.module, fn, fi0.cls)
     sides = 0
@@ -2064,7 +2270,7 @@ def check_state_shape(prog: Program, res: Result) -> None:
              "the new atom from external to frontier and removes the new atom "
              "from both sets (any of the usual set-update spellings)")
     from .core import unroll_literal_loops
-    fi0 = prog.fn(f"{MOD}:_update_state")
+    fi0 = canon_iso(prog, "_update_state")
     fn = unroll_literal_loops(fi0.node)
     eff = _set_effects(fn)
     defs = [s_ for s_ in ast.walk(fn) if isinstance(s_, ast.Assign)
